@@ -3,7 +3,8 @@ Spec: spec/AbsorbDefs.tla, spec/AbsorbScenes.tla (configuration space + phase ma
 abstract observations); trace spec: spec/Trace_Absorb.tla (same predicates on logged numbers of REAL runs).
 
 Every scene is built through the public pipeline (place_objects -> apply_params -> run_fdtd):
-  small domain  = NINT^3 free cells + `thick` cells of PerfectlyMatchedLayer on EVERY face (precondition >= 8)
+  small domain  = NINT^3 free cells + `thick` cells of PerfectlyMatchedLayer on EVERY face (precondition >= 8), graded as
+                  library default | kappa 1->5 | kappa 1->10 | alpha_start x5 (the statement does not restrict the grading)
   source        = magnetic dipole | electric dipole | finite plane (TFSF) source radiating towards the face under
                   test, Gaussian pulse with spectral width f0/6 (relative DC content of the sampled pulse ~4e-9,
                   logged and bounded by 1e-7 in the trace spec = "zero-net-charge")
@@ -26,6 +27,23 @@ CHUNK = 200
 FACES = ("min_x", "max_x", "min_y", "max_y", "min_z", "max_z")
 KINDS = ("mdipole", "edipole", "plane")
 THICKS = (8, 12, 20)
+GRADINGS = ("default", "kappa5", "kappa10", "alpha5")
+
+
+def grading_kwargs(g):
+    """keyword arguments of BoundaryConfig.from_uniform_bound for a grading class (mirror of AbsorbDefs!Gradings)"""
+    import math as _m
+
+    from fdtdx.constants import c as c0
+    from fdtdx.constants import eps0
+
+    if g == "kappa5":
+        return {"kappa_start": 1.0, "kappa_end": 5.0}
+    if g == "kappa10":
+        return {"kappa_start": 1.0, "kappa_end": 10.0}
+    if g == "alpha5":
+        return {"alpha_start": 5 * 0.01 * 2 * _m.pi * c0 / 1.55e-6 * eps0}      # five times the library default
+    return {}
 RES = 50e-9
 NINT = 12          # free cells per axis
 CPW = 8            # cells per (centre) wavelength of the pulse
@@ -45,13 +63,14 @@ def axis_of(face):
 def configs():
     """mirror of AbsorbDefs!Configs"""
     out = []
-    for th in THICKS:
-        for f in FACES:
-            for k in KINDS:
-                for p in range(3):
-                    if k == "plane" and p == axis_of(f):
-                        continue
-                    out.append((f, k, p, th))
+    for g in GRADINGS:
+        for th in THICKS:
+            for f in FACES:
+                for k in KINDS:
+                    for p in range(3):
+                        if k == "plane" and p == axis_of(f):
+                            continue
+                        out.append((f, k, p, th, g))
     return out
 
 
@@ -64,11 +83,11 @@ def model_check(ctx):
     from lib.tlc import MachineryError
 
     r = ctx.mc("AbsorbScenes", "MC_AbsorbScenes_q.cfg" if ctx.quick else "MC_AbsorbScenes_t.cfg",
-               label="144 scenes (face x kind x polarisation x thickness class) x phase machine; loss per face hit 4 (quick) / 2 (thorough) decades")
+               label="576 scenes (face x kind x polarisation x thickness class x grading) x phase machine; loss per face hit 4 (quick) / 2 (thorough) decades")
     n = _init_count(r)
     if n != len(configs()):
         raise MachineryError(f"AbsorbScenes enumerates {n} scenes, the harness {len(configs())}")
-    for c in ("neg", "neg2", "neg3"):
+    for c in ("neg", "neg2", "neg3", "neg4"):
         ctx.mc_negative("AbsorbScenes", f"MC_AbsorbScenes_{c}.cfg")
     ctx.assumptions += [
         "thresholds 1e-6 (energy left) and 1e-4 (window difference) are taken from the statement, not derived",
@@ -76,7 +95,7 @@ def model_check(ctx):
         "'after the pulse has left' = at least 4 transits of the whole domain (layers included, axis-parallel, at c) after the source pulse ended (12 sigma)",
         "reference domain: PEC walls MARGIN free cells away on every side; 2*MARGIN > courant*window (+2 cells) so that no reflection reaches the recorded slab within the window (sub-luminal numerical precursors are neglected)",
         "relative energy of the difference = compute_energy(small - reference) / compute_energy(reference) summed over the slab and the window (library function, vacuum)",
-        "vacuum, uniform 50 nm grid, default courant factor 0.99, default CPML parameters, 8 cells per centre wavelength, float64",
+        "vacuum, uniform 50 nm grid, default courant factor 0.99, 8 cells per centre wavelength, float64; layer gradings: library default, kappa graded 1 -> 5 and 1 -> 10 (cubic), alpha_start five times the default - the same grading on all six faces",
     ]
 
 
@@ -94,7 +113,7 @@ def gen_cases(ctx):
     allc = configs()
     # one source position per (face, kind, pol): the reference run is shared by the three thickness classes
     pos = {}
-    for (f, k, p, th) in allc:
+    for (f, k, p, th, g) in allc:
         if (f, k, p) not in pos:
             pos[(f, k, p)] = _spos(rng, f)
     if ctx.quick:
@@ -104,15 +123,28 @@ def gen_cases(ctx):
         rng.shuffle(kinds)
         thicks = [8, 8, 12, 20]
         rng.shuffle(thicks)
+        # gradings: two scenes with the library default; the first dipole scene with 8-cell layers is kappa-graded 1 -> 10
+        # (thin layers + strong stretching + a near dipole is the most demanding combination), one more scene gets a
+        # seeded non-default grading
+        grads = ["default"] * 4
+        if not any(th == 8 and k != "plane" for k, th in zip(kinds, thicks)):      # both 8-cell scenes drew "plane": swap one
+            j = thicks.index(8)
+            m = next(i for i, k in enumerate(kinds) if k != "plane")
+            kinds[j], kinds[m] = kinds[m], kinds[j]
+        sel = list(zip(faces[:4], kinds, thicks))
+        i10 = next(i for i, (f, k, th) in enumerate(sel) if th == 8 and k != "plane")
+        grads[i10] = "kappa10"
+        rest = [i for i in range(4) if i != i10]
+        grads[rng.choice(rest)] = rng.choice(["kappa5", "alpha5", "kappa10"])
         chosen = []
-        for f, k, th in zip(faces[:4], kinds, thicks):
+        for (f, k, th), g in zip(sel, grads):
             p = rng.choice([q for q in range(3) if not (k == "plane" and q == axis_of(f))])
-            chosen.append((f, k, p, th))
+            chosen.append((f, k, p, th, g))
         ctx.exhaustive = False
     else:
         chosen = allc
-    for (f, k, p, th) in chosen:
-        yield {"id": f"{f}-{k}-p{p}-t{th}", "face": f, "kind": k, "pol": p, "thick": th, "spos": pos[(f, k, p)]}
+    for (f, k, p, th, g) in chosen:
+        yield {"id": f"{f}-{k}-p{p}-t{th}-{g}", "face": f, "kind": k, "pol": p, "thick": th, "grading": g, "spos": pos[(f, k, p)]}
 
 
 # ------------------------------------------------------------------ scene construction (public pipeline)
@@ -149,7 +181,7 @@ def _build(case, T, margin=None):
     assert config.time_steps_total == T, (config.time_steps_total, T)
     if margin is None:
         off, n = th, NINT + 2 * th
-        bcfg = fdtdx.BoundaryConfig.from_uniform_bound(thickness=th)
+        bcfg = fdtdx.BoundaryConfig.from_uniform_bound(thickness=th, **grading_kwargs(case.get("grading", "default")))
     else:
         off, n = margin, NINT + 2 * margin
         bcfg = fdtdx.BoundaryConfig.from_uniform_bound(thickness=8, override_types={f: "pec" for f in FACES})
@@ -263,6 +295,8 @@ def observe(case):
     sl = _slices(obj)
     by_face = {p.descriptive_name: int(p.thickness) for p in obj.pml_objects}
     thick_faces = [by_face.get(f, 0) for f in FACES]
+    kap = {p.descriptive_name: int(round(1000 * float(p.kappa_end))) for p in obj.pml_objects}
+    kappa_faces = [kap.get(f, 0) for f in FACES]
     en, rec = _run(obj, arrays, config)
     fin = np.isfinite(en)
     peak = float(np.max(en[fin])) if fin.any() else 0.0
@@ -287,8 +321,8 @@ def observe(case):
 
     e_ref = energy(b_)
     e_dif = energy(a_ - b_)
-    rec_out = {"id": case["id"], "face": case["face"], "kind": case["kind"], "pol": case["pol"], "thick": case["thick"],
-               "thickFaces": thick_faces, "dcPpb": dc_ppb, **tm, "events": events,
+    rec_out = {"id": case["id"], "face": case["face"], "kind": case["kind"], "pol": case["pol"], "thick": case["thick"], "grading": case.get("grading", "default"),
+               "thickFaces": thick_faces, "kappaEndFaces": kappa_faces, "dcPpb": dc_ppb, **tm, "events": events,
                "winDiffPpb": _units(e_dif / e_ref, 1e9) if e_ref > 0 and np.isfinite(e_ref) else 2_000_000_000,
                "winRefPos": bool(e_ref > 0), "peakStep": ipk,
                "maxQuiet": max(ev["e"] for ev in events if ev["t"] >= tm["tQuiet"]), "cells": int((NINT + 2 * case["thick"]) ** 3), "refCells": int((NINT + 2 * margin) ** 3)}
@@ -315,7 +349,7 @@ def run(ctx):
     ctx.nontrivial = len({json.dumps(c, sort_keys=True) for c in inputs})
     ctx.validate(*TRACE, recs, {c["id"]: c for c in inputs}, classify=classify, chunk=CHUNK)
     ctx.notes += [EXPLANATION,
-                  f"scenes run: {len(recs)} of {len(configs())} enumerated ({'seeded choice, all kinds, 4 faces' if ctx.quick else 'all'})",
+                  f"scenes run: {len(recs)} of {len(configs())} enumerated ({'seeded choice, all kinds, 4 faces, one 8-cell dipole scene kappa-graded 1->10' if ctx.quick else 'all'})",
                   f"observed: max interior energy in Quiet = {max(r['maxQuiet'] for r in recs)}e-9 of peak (bound 1000e-9); max window difference = {max(r['winDiffPpb'] for r in recs)} ppb (bound 100000 ppb); max relative DC of the pulse = {max(r['dcPpb'] for r in recs)} ppb (premise < 100)"]
     ctx.extra_cov["explanation"] = EXPLANATION
     ctx.extra_cov["observed_margins"] = {"max_quiet_energy_1e-9_of_peak": max(r["maxQuiet"] for r in recs), "quiet_bound": 1000,
